@@ -2,7 +2,11 @@
 
 package verifsim
 
-import "github.com/superfly/litefs"
+import (
+	"sync"
+
+	"github.com/superfly/litefs"
+)
 
 // MutexYieldBuilt reports whether this binary was built from the copy of
 // superfly/litefs in which every acquisition of a sync mutex is a scheduling
@@ -14,11 +18,29 @@ const MutexYieldBuilt = true
 // instrumented mutex.
 func installMutexSeam(r *Run) {
 	litefs.VerifResetMutexes()
+	var mu sync.Mutex
+	count := map[uint64]int{}
 	litefs.VerifMutexYield = func(loc string) {
-		if cur := curRun.Load(); cur != nil && cur.MutexSeam {
-			if s := cur.Sched; s != nil {
-				s.Yield(0, "mutex", loc)
+		cur := curRun.Load()
+		if cur == nil || !cur.MutexSeam {
+			return
+		}
+		s := cur.Sched
+		if s == nil {
+			return
+		}
+		if every := cur.MutexEvery; every > 1 {
+			// only every n-th acquisition of a goroutine is a scheduling point
+			// (long multi-node runs would otherwise spend their step budget here)
+			id := goid()
+			mu.Lock()
+			count[id]++
+			c := count[id]
+			mu.Unlock()
+			if c%every != 0 {
+				return
 			}
 		}
+		s.Yield(0, "mutex", loc)
 	}
 }
